@@ -124,9 +124,15 @@ def det_case(rec, index, rng, tier):
     space["two_steps"] = False
     en = [p for p in space["params"] if p["enabled"]]
     if space["mode"] == "custom":
+        # custom tables are C05's business; here the same parameters are swept as a product.
+        # (value lists are de-duplicated: the dask path refuses duplicated labels with an error)
         space["mode"] = "product"
         for p in space["params"]:
-            p["enabled"] = p["enabled"] and not p["key"].endswith(".s") or p["enabled"]
+            uniq = []
+            for v in p["values"]:
+                if v not in uniq:
+                    uniq.append(v)
+            p["values"] = uniq[:3]
     zipped_class = space["mode"] == "sequential" and len(en) >= 2
     names = c05.dim_names(space)
     short = list(names.values())
